@@ -504,6 +504,24 @@ where
                             parts.push((Part::Boxed(v.into_boxed_slice()), model));
                         }
                     }
+                    Part::Fixed(f) if ctx.rng.chance(1, 3) => {
+                        // split_at_spare: the initialised part as a boxed slice, the spare capacity as an uninit slice
+                        ctx.begin(format!("part {i} (FixedBumpVec) split_at_spare (len {len} cap {})", f.capacity()));
+                        let (cap, start) = (f.capacity(), f.as_ptr() as usize);
+                        let (init, spare) = f.split_at_spare();
+                        if !E::ZST {
+                            if spare.len() != cap - len {
+                                ctx.viol("C16", "capacities_do_not_add_up:split_at_spare".into(), format!("{len} + {} != {cap}", spare.len()));
+                            }
+                            if spare.as_ptr() as usize != start + len * size_of::<E>() {
+                                ctx.viol("C16", "split_at_spare_wrong_spare_address".into(), format!("{:#x} vs {:#x}", spare.as_ptr() as usize, start + len * size_of::<E>()));
+                            }
+                        }
+                        parts.push((Part::Boxed(init), model));
+                        parts.push((Part::Fixed(FixedBumpVec::from_uninit(spare)), vec![]));
+                        ctx.ev("split");
+                        ctx.rep.count("split_at_spare");
+                    }
                     Part::Fixed(f) => {
                         if ctx.rng.bool() {
                             ctx.begin(format!("part {i} (FixedBumpVec) into_vec"));
